@@ -274,7 +274,8 @@ MUTANTS = [
          replace='        self._registry.setdefault(method.name, method)\n', expect='REPLACE-LATER'),
     dict(name='add-ignores-explicit-name-with-prefix', file='pjrpc/server/dispatcher.py',
          find="full_name = '.'.join(filter(None, (self._prefix, name or method.__name__)))",
-         replace="full_name = name or '.'.join(filter(None, (self._prefix, method.__name__)))", expect='NAME-COMPOSE'),
+         replace="full_name = name or '.'.join(filter(None, (self._prefix, method.__name__)))", expect='NAME-COMPOSE',
+         accept_analysis_error=True),   # an unrecognised composition form is reported as ANALYSIS-ERROR (exit 2), never as a pass
     dict(name='merge-without-copy', file='pjrpc/server/dispatcher.py', find='            self._add_method(method.copy(name=name))',
          replace='            self._add_method(method)', expect='NAME-COMPOSE'),
     dict(name='view-skips-callable-check', file='pjrpc/server/dispatcher.py', find='            if callable(attr):\n                yield attr',
